@@ -12,7 +12,7 @@ The rule is per family of a TRAVERSAL instance and per node type T of the instan
 non-closure function with a parameter of type T / Box<T> / &T). Exemptions: one (function, slot) each, with a reason.
 """
 from ..core import RuleResult
-from ..cfg import cfg_of, single_def
+from ..cfg import cfg_of, single_def, reach_known_variants
 from ..dataflow import root_local
 from ..facts import callee, strip_refs
 from ..callgraph import family
@@ -181,7 +181,7 @@ def run_instance(prog, cfg, exempt=None):
                 for v, tb in t3[2]:
                     if v in named:
                         dead.add((bk, tb))
-            reach = cfgb._reach_from(other, set(handed), dead) if other not in handed else set()
+            reach = reach_known_variants(b, other, handed, dead)
             leaks = [e for e in cfgb.exits if e in reach]
             if not leaks or (handed and cfgb.nodes_dominate(handed, bi)):
                 res.ok(key, b.loc(st[3]), 'variants not named at the inspection are handed to the visitor on every path')
